@@ -100,20 +100,26 @@ CFG = dict(
         "for which the concurrent theorems do not compile",
         "the semantics given to one sync/atomic call in Model/Interleave.v (Load/Store/CompareAndSwap/Or/And are sequentially consistent single steps on one word); "
         "Go's memory model for sync/atomic is trusted, not modelled",
-        "the getters and the compound calls Tag/ChannelCanStop/SetChannel are modelled sequentially (every load of one call sees the same word unless the call itself "
-        "stored in between): a compound call racing with another writer is outside the theorems",
+        "the compound calls are covered concurrently only for ONE SetChannel caller against ONE ChannelCanStop (or ChannelCanStart) poll; two concurrent SetChannel callers, "
+        "two pollers, or Tag against Tag are outside the theorems; plain getters racing with writers read one atomic snapshot per load",
+        "bugtrack.Enabled is taken as false by the translator (the `bugs` build only adds loads for logging)",
     ],
     assumptions=[
         "state words are arbitrary uint32 values, arguments arbitrary uint32 (Set/Unset) / uint16 (SetLast) values; the half-independence theorems take flag arguments below 2^16",
         "a thread executes one mutator call; schedules are arbitrary finite lists of thread ids (any length, any order, unfair ones included); complete = every call has returned",
     ],
-    level_text="28 theorems. Over the Gallina model of c2/state.go for ALL words: Set/Unset keep the group half, SetLast keeps the flag half and sets the group; the complete truth table "
+    level_text="34 theorems. Over the Gallina model of c2/state.go for ALL words: Set/Unset keep the group half, SetLast keeps the flag half and sets the group; the complete truth table "
                "of every predicate over all 2^16 flag states (vm_compute over the whole finite domain, lifted to all 2^32 words by independence lemmas): closed implies not ready, "
                "not receivable, closing; the channel request protocol and single consumption of the 'updated' notice. Over the interleaving semantics, instantiated with the atomic "
                "shape TRANSLATED on every run from the current state.go: no_lost_update (for every list of concurrent Set/Unset/SetLast calls and every complete schedule the final "
                "word is the fold of ALL calls in the order of their successful compare-and-swap steps; by induction on the schedule), no call is ever half applied, a flag set by some "
                "call and cleared by none is set at the end, the halves stay independent concurrently, complete schedules exist; and the refutation of the same statement for the "
-               "load-then-store shape of the pinned tree. The sequential model is tied to /repo by running every flag state through every method of the real type; the concurrent "
+               "load-then-store shape of the pinned tree. The compound methods (Tag, ChannelCanStop, ChannelCanStart, SetChannel) are ALSO translated on every run, into decision "
+               "trees over their atomic calls in source order; proved: run alone each is the method of the sequential model (all words), and for EVERY interleaving of one SetChannel(e) "
+               "with one ChannelCanStop poll on a running channel (all words, all schedules: exhaustive exploration of the 64 words made of protocol bits by vm_compute, sound for all "
+               "schedules by induction, lifted to all 2^32 words by a simulation lemma): SetChannel answers as alone, the poller never acts on a notice with the value of another request "
+               "(the value is published before the notice), the request is never lost and its notice is consumed once; likewise ChannelCanStart; refuted for the swapped write order. "
+               "The sequential model is tied to /repo by running every flag state through every method of the real type; the concurrent "
                "theorems are tied by the translator, by the theorem that the translated commit functions ARE Set/Unset/SetLast of the sequential model, and by a goroutine stress run.",
     level_note="Proof is about the model and about the translated atomic shape; the sequential tie is exhaustive on the flag half (65536 rows) and sampled on the group half. "
                "Trusted: Coq kernel+vm_compute, the translator, sync/atomic semantics, the harness. No axioms.",
